@@ -32,7 +32,8 @@ CLIENT_APIS = ("recv", "recv_stderr", "sendall", "sendall_stderr", "send", "exec
                "auth_password", "auth_publickey", "auth_interactive", "auth_none",
                "srt_auth_password", "srt_auth_publickey", "srt_auth_none", "start_client")
 SERVER_APIS = ("accept_none", "accept_timeout", "server_recv", "server_sendall", "start_server", "server_renegotiate")
-LOSSES = ("peer-close", "link-eof", "link-reset", "link-error-one-arg", "local-close", "garbage-then-eof", "peer-disconnect")
+LOSSES = ("peer-close", "link-eof", "link-reset", "link-error-one-arg", "local-close", "garbage-then-eof", "peer-disconnect",
+          "protocol-error")
 PHASES = ("blocked-first", "racing", "after")
 PROXY_APIS = ("recv", "exec_command", "open_session", "global_request", "sendall", "auth_password", "recv_exit_status")
 PROXY_CASES = [("proxy:" + a, "proxy-exit", ph) for a in PROXY_APIS for ph in ("blocked-first", "racing", "after")]
@@ -308,6 +309,28 @@ def scenario(sim):
             link.inject(0 if victim_role == "server" else 1, sim.payload.randbytes(64))
             link.cut(0 if victim_role == "server" else 1, "eof")
             sim.fault("garbage_injected")
+        elif loss == "protocol-error":
+            # a detectable protocol error while the stream stays open: one packet towards the victim has its last
+            # byte (MAC / tag) damaged in flight; before the handshake, an SSH-1 banner
+            d = 0 if victim_role == "server" else 1
+            if raw_start or not peer.is_active():
+                link.inject(d, b"SSH-1.5-ancient\r\n")
+            else:
+                state = {"done": False}
+
+                def tap(link_, dd, data):
+                    if dd == d and not state["done"] and len(data) > 40:
+                        state["done"] = True
+                        sim.fault("packet_damaged_in_flight")
+                        return (data[:-1] + bytes([data[-1] ^ 0x40]),)
+                    return (data,)
+                link.tap = tap
+                m = paramiko.Message()
+                m.add_byte(bytes([2])); m.add_string(b"n" * 64)
+                try:
+                    peer.packetizer.send_message(m)
+                except Exception:
+                    pass
         elif loss == "peer-disconnect":
             if not raw_start and peer.is_active():
                 m = paramiko.Message()
